@@ -1,6 +1,7 @@
 package main
 
 import (
+	"regexp"
 	"fmt"
 	"go/token"
 	"go/types"
@@ -860,6 +861,115 @@ func runLZW(c *Ctx, rule string) {
 			}
 		}
 		c.check(n == 1, rule, "encoder: one hash-table wipe in incHi", incHi.Pos(), "1", fmt.Sprintf("%d stores to table", n))
+	}
+	// ---- rules added for the second list of independent mutants
+	{
+		// encoder: a new table entry goes into a free slot (linear probing), and only when incHi
+		// did not just reset the table
+		nIns := 0
+		for _, b := range wWrite.Blocks {
+			for _, in := range b.Instrs {
+				st, ok := in.(*ssa.Store)
+				if !ok {
+					continue
+				}
+				ia, ok := st.Addr.(*ssa.IndexAddr)
+				if !ok || !strings.HasSuffix(render(ia.X), ".table") {
+					continue
+				}
+				nIns++
+				slot := regexp.QuoteMeta(strings.TrimPrefix(render(st.Addr), "&"))
+				c.requireAt(rule, "encoder: a new entry is stored into a free slot of the hash table", st, wEQ("slot == invalidEntry", 0, t(1, "^"+slot+"$")))
+				c.requireAt(rule, "encoder: no entry is inserted right after a table reset", st, wSame("incHi() == nil", `\.incHi\(\)$`, `^nil$`))
+			}
+		}
+		c.check(nIns == 1, rule, "encoder: one insertion site in Write", wWrite.Pos(), "1", fmt.Sprintf("%d stores to the hash table in Write", nIns))
+		// Close: the out-of-codes signal of incHi is not an error; the last partial byte is
+		// aligned for the MSB order
+		for _, e := range exitAlts(wClose) {
+			r := render(e.Results[0])
+			if strings.HasSuffix(r, ".incHi()") {
+				c.requireGuard(rule, "Close fails on incHi only for a real error", e.pos(), e.Guards, wDiffer("err != errOutOfCodes", `\.incHi\(\)$`, `errOutOfCodes$`))
+			}
+		}
+		msb, _ := c.constVal(lz, "MSB")
+		nSh := 0
+		for _, b := range wClose.Blocks {
+			for _, in := range b.Instrs {
+				st, ok := in.(*ssa.Store)
+				if !ok {
+					continue
+				}
+				if f, _, ok := fieldOfAddr(st.Addr); !ok || f != "bits" {
+					continue
+				}
+				if bo, ok := st.Val.(*ssa.BinOp); ok && bo.Op == token.SHR {
+					nSh++
+					c.requireAt(rule, "Close aligns the final partial byte for the MSB order only", st, wEQ("order == MSB", -msb, t(1, `\.order$`)))
+					k, _ := constInt(bo.Y)
+					c.check(k == 24, rule, "Close takes the top byte of the 32-bit accumulator", st.Pos(), "bits >>= 24", fmt.Sprintf("shift by %d", k))
+				}
+			}
+		}
+		c.check(nSh == 1, rule, "Close: one alignment shift", wClose.Pos(), "1", fmt.Sprintf("%d", nSh))
+		// decoder: in the non-literal branch the new entry's suffix is the literal the chain walk
+		// ended on, not the code read
+		rdCode := ssa.Value(nil)
+		for _, rdc := range fieldWriteCalls(decode, "read") {
+			rdCode = rdc
+		}
+		nSuf := 0
+		for _, b := range decode.Blocks {
+			for _, in := range b.Instrs {
+				st, ok := in.(*ssa.Store)
+				if !ok {
+					continue
+				}
+				ia, ok := st.Addr.(*ssa.IndexAddr)
+				if !ok || !strings.HasSuffix(render(ia.X), ".suffix") {
+					continue
+				}
+				nSuf++
+				cv, _ := st.Val.(*ssa.Convert)
+				if cv == nil {
+					continue
+				}
+				_, literal := holdsAll(altGuards(b), wGE("code < clear", -1, t(1, `\.clear$`), t(-1, `read\(.*\)#0$`)))
+				fromCode := false
+				if ex, ok := cv.X.(*ssa.Extract); ok && rdCode != nil && ex.Tuple == rdCode {
+					fromCode = true
+				}
+				if literal {
+					c.check(fromCode, rule, "decoder: a literal code defines its entry's suffix", st.Pos(), "suffix[hi] = code", "suffix is "+render(st.Val))
+				} else {
+					c.check(!fromCode, rule, "decoder: a sequence code defines its entry's suffix by the literal its chain ends on", st.Pos(), "suffix[hi] = c", "the suffix of the new entry is the low byte of the code read, not the first literal of its expansion: every later use of that entry decodes wrongly")
+				}
+			}
+		}
+		c.check(nSuf == 2, rule, "decoder: suffix definitions", decode.Pos(), "2", fmt.Sprintf("%d", nSuf))
+		// Reader.Read: pending output is delivered before the sticky error is reported
+		if rd := c.mustFn(lz, "Reader", "Read"); rd != nil {
+			for _, e := range exitAlts(rd) {
+				if strings.HasSuffix(render(e.Results[1]), ".err") {
+					c.requireGuard(rule, "Reader.Read reports its sticky error", e.pos(), e.Guards, wEQ("nothing is pending", 0, t(1, `^len\(\$r\.toRead\)$`)))
+				}
+			}
+		}
+		// Decompress reads the whole stream
+		if decomp := c.mustFn("common", "", "Decompress"); decomp != nil {
+			for _, cs := range c.calls(decomp, byCallee("io.ReadAll")) {
+				_, a := callArgs(cs.Common())
+				src := a[0]
+				if mi, ok := src.(*ssa.MakeInterface); ok {
+					src = mi.X
+				}
+				if ci, ok := src.(*ssa.ChangeInterface); ok {
+					src = ci.X
+				}
+				call, ok := src.(*ssa.Call)
+				c.check(ok && strings.HasSuffix(calleeName(call.Common()), "common/lzw.NewReader"), rule, "Decompress reads the decoder to its end", cs.Pos(), "io.ReadAll(lzw reader)", "Decompress reads through "+render(a[0])+": longer values come back truncated")
+			}
+		}
 	}
 	_ = types.Typ
 }
